@@ -216,4 +216,25 @@ theorem fit_emits_valid_payload_of_inv (S : Schema) (hS : S ∈ domFamilySchemas
     (family_textStableC _ (domFamily_sub _ hS)) (family_closable _ (domFamily_sub _ hS)) doc f t sl hslv hattrs
     st h hend
 
+/-- `PM.C11.fit_emits_valid_payload` with its schema guards discharged for the bundled schema family -/
+theorem fit_emits_valid_payload (S : Schema) (hS : S ∈ domFamilySchemas) (doc : Node) (f t : Nat) (sl : Slice)
+    (hloose : sl.looseValid S = true) (hv : C01.Valid S doc) (hattrs : S.nodeAttrsOK doc = true)
+    (hrun : unplacedWfRun S doc f t sl = true) (st : Step) (h : replaceStep S doc f t sl = .ok (some st)) :
+    ∃ sl', st.sliceOf = some sl' ∧ openValid S sl'.openStart sl'.openEnd sl'.content = true :=
+  PM.C11.fit_emits_valid_payload S (family_det _ (domFamily_sub _ hS)) (family_fillersOK _ (domFamily_sub _ hS))
+    (family_wrapOK _ (domFamily_sub _ hS)) (family_labelsOK _ (domFamily_sub _ hS))
+    (family_leafOk _ (domFamily_sub _ hS)) (family_textStableC _ (domFamily_sub _ hS))
+    (family_closable _ (domFamily_sub _ hS)) doc f t sl hloose hv hattrs hrun st h
+
+/-- `PM.C11.payloadInv_step_gen` with its schema guards discharged for the bundled schema family -/
+theorem payloadInv_step_gen (S : Schema) (hS : S ∈ domFamilySchemas) (D g : Nat) (st : FitState)
+    (inv : InStep st) (hv : VInv S D g st.frontier st.placed) (hU : UInv S st.unplaced)
+    (hwf : st.unplaced.wf = true) (hsz : (st.unplaced.size == 0) = false) (st' : FitState)
+    (h : fitStep S st = .ok st') :
+    (∃ g', VInv S D g' st'.frontier st'.placed) ∧ UInv S st'.unplaced :=
+  PM.C11.payloadInv_step_gen S (family_det _ (domFamily_sub _ hS)) (family_fillersOK _ (domFamily_sub _ hS))
+    (family_wrapOK _ (domFamily_sub _ hS)) (family_labelsOK _ (domFamily_sub _ hS))
+    (family_leafOk _ (domFamily_sub _ hS)) (family_textStableC _ (domFamily_sub _ hS))
+    (family_closable _ (domFamily_sub _ hS)) D g st inv hv hU hwf hsz st' h
+
 end PM.Family.C11
